@@ -451,12 +451,12 @@ Print Assumptions C01_lkcd_index_sound.
     [binv]; every history of page reads and max_pfn queries, in any order,
     answers exactly as the image demands - pages found in the blocks, pages
     the scan reaches, and pages that are not there. *)
-Theorem C01_lkcd_index_open_partial : forall gunzip l stream img,
+Theorem C01_lkcd_index_open : forall gunzip l stream img,
   lk_wf l stream -> Forall2 (rec_stores gunzip (ll_compression l) (ll_page_size l)) stream img ->
   exists b, kb_open (read_files [encode_lkcd l stream]) 1 = Ok b /\ binv l stream b /\
             kb_be b = ll_be l /\ kb_page_size b = ll_page_size l.
 Proof. intros gunzip l stream img Hwf Hst. exact (index_open gunzip l stream img Hwf Hst). Qed.
-Print Assumptions C01_lkcd_index_open_partial.
+Print Assumptions C01_lkcd_index_open.
 
 Theorem C01_lkcd_index_history_partial : forall gunzip l stream img,
   lk_wf l stream -> Forall2 (rec_stores gunzip (ll_compression l) (ll_page_size l)) stream img ->
@@ -656,6 +656,23 @@ Proof.
       * apply Forall_forall. intros t Ht. apply repeat_spec in Ht. subst. cbn. intuition (discriminate || reflexivity).
       * repeat constructor; cbn; intuition (discriminate || reflexivity).
 Qed.
+
+(** the same stream through the block-level index: page 2 is reached by the
+    scan (which files page 5 on the way), page 5 is then found in the blocks,
+    page 7 is not in the dump; the hypothesis of the [_partial] theorem holds *)
+Example C01_nonvacuous_lkcd_index :
+  len (encode_lkcd ex_lk_layout ex_stream) < 2^32 /\
+  (let rd := read_files [encode_lkcd ex_lk_layout ex_stream] in
+   match kb_open rd 1 with
+   | Ok b =>
+       let '(answers, b') := kb_run rd (fun _ => None) 10 b [ReqPage 2; ReqPage 5; ReqMaxPfn; ReqPage 7] in
+       answers = [AnsPage (Ok (rle_expand ex_toks)); AnsPage (Ok (ex_page 3)); AnsMaxPfn (Ok 6);
+                  AnsPage (Err ERR_NODATA)] /\
+       tbl_find (kb_tbl b') 5 = Some 1000 /\ tbl_find (kb_tbl b') 2 = Some 5112 /\
+       tbl_find (kb_tbl b') 3 = None /\ tbl_find (kb_tbl b') (2^32 + 5) = None
+   | Err _ => False
+   end).
+Proof. split; [vm_compute; reflexivity |]. vm_compute. repeat split; reflexivity. Qed.
 
 Definition ex_elf_layout : elf_layout :=
   {| el_be := true; el_64 := false; el_machine := 20; el_osabi := 0; el_flags := 0;
